@@ -422,63 +422,32 @@ pub(crate) fn validate_channelmodes<'a>(
     })
 }
 
-fn starts_single_wilcards<'a>(pattern: &'a str, text: &'a str) -> bool {
-    if pattern.len() <= text.len() {
-        pattern
-            .bytes()
-            .enumerate()
-            .all(|(i, c)| c == b'?' || c == text.as_bytes()[i])
-    } else {
-        false
-    }
-}
-
 pub(crate) fn match_wildcard<'a>(pattern: &'a str, text: &'a str) -> bool {
-    let mut pat = pattern;
-    let mut t = text;
-    let mut asterisk = false;
-    while !pat.is_empty() {
-        let (newpat, m, cur_ast) = if let Some(i) = pat.find('*') {
-            (&pat[i + 1..], &pat[..i], true)
+    let pat = pattern.chars().collect::<Vec<_>>();
+    let txt = text.chars().collect::<Vec<_>>();
+    let mut p = 0;
+    let mut t = 0;
+    // position after last asterisk in pattern and text position to retry from.
+    let mut last_ast: Option<(usize, usize)> = None;
+    while t < txt.len() {
+        if p < pat.len() && pat[p] == '*' {
+            // asterisk matches empty string at first
+            last_ast = Some((p + 1, t));
+            p += 1;
+        } else if p < pat.len() && (pat[p] == '?' || pat[p] == txt[t]) {
+            p += 1;
+            t += 1;
+        } else if let Some((ap, at)) = last_ast {
+            // mismatch - last asterisk must match one more character
+            p = ap;
+            t = at + 1;
+            last_ast = Some((ap, at + 1));
         } else {
-            (&pat[pat.len()..pat.len()], pat, false)
-        };
-
-        if !m.is_empty() {
-            if !asterisk {
-                // if first match
-                if !starts_single_wilcards(m, t) {
-                    return false;
-                }
-                t = &t[m.len()..];
-            } else if cur_ast || !newpat.is_empty() {
-                // after asterisk. only if some rest in pattern and
-                // if last current character is asterisk
-                let mut i = 0;
-                // find first single wildcards occurrence.
-                while i <= t.len() - m.len() && !starts_single_wilcards(m, &t[i..]) {
-                    i += 1;
-                }
-                if i <= t.len() - m.len() {
-                    // if found
-                    t = &t[i + m.len()..];
-                } else {
-                    return false;
-                }
-            } else {
-                // if last pattern is not asterisk
-                if !starts_single_wilcards(m, &t[t.len() - m.len()..]) {
-                    return false;
-                }
-                t = &t[t.len()..t.len()];
-            }
+            return false;
         }
-
-        asterisk = true;
-        pat = newpat;
     }
-    // if last character in pattern is '*' or text has been fully consumed
-    (!pattern.is_empty() && pattern.as_bytes()[pattern.len() - 1] == b'*') || t.is_empty()
+    // text has been fully consumed - only asterisks can be in rest of pattern
+    pat[p..].iter().all(|c| *c == '*')
 }
 
 // normalize source mask - for example '*' to '*!*@*'
